@@ -205,6 +205,7 @@ def gen_ops(rng, tier, ctx=None):
         yield "mpq_set_ui %s %s %s %s" % (hx(q0[0]), hx(q0[1]), hx(n), hx(d))
         a, b = rand_q(rng, tier), rand_q(rng, tier)
         yield q3("mpq_swap", 0, a, b); yield q3("mpq_swap", 1, a, a)
+        yield "mpq_get_num %s %s %s" % (hx(a[0]), hx(a[1]), hx(z)); yield "mpq_get_den %s %s %s" % (hx(b[0]), hx(b[1]), hx(z))
     # set_d: every class of double
     def dbl(s, e, f): return (s << 63) | (e << 52) | f
     F = [0, 1, 2, 3, (1 << 52) - 1, 1 << 51, (1 << 51) + 1, 1 << 20, 1 << 11, 1 << 12, (1 << 52) - 2]
